@@ -443,7 +443,7 @@ idx_t dtw_wps_loc(DTWWps* p, idx_t r, idx_t c, idx_t l1, idx_t l2) {
     }
 
     // D.
-    min_ci = MAX(0, p->ri3 + 1 - p->window - p->ldiff);
+    min_ci = MAX(0, p->ri3 + 1 - p->window - p->ldiffr);
     max_ci = l2 + 1;
     wpsi_start = 2;
     if (p->ri2 == p->ri3) {
@@ -527,7 +527,7 @@ idx_t dtw_wps_loc_columns(DTWWps* p, idx_t r, idx_t *cb, idx_t *ce, idx_t l1, id
     }
 
     // D.
-    min_ci = MAX(0, p->ri3 + 1 - p->window - p->ldiff);
+    min_ci = MAX(0, p->ri3 + 1 - p->window - p->ldiffr);
     max_ci = l2 + 1;
     wpsi_start = 2;
     if (p->ri2 == p->ri3) {
@@ -633,7 +633,7 @@ idx_t dtw_wps_max(DTWWps* p, seq_t *wps, idx_t *r, idx_t *c, idx_t l1, idx_t l2)
     }
 
     // D.
-    min_ci = MAX(0, p->ri3 + 1 - p->window - p->ldiff);
+    min_ci = MAX(0, p->ri3 + 1 - p->window - p->ldiffr);
     max_ci = l2 + 1;
     wpsi_start = 2;
     if (p->ri2 == p->ri3) {
@@ -726,7 +726,7 @@ idx_t dtw_best_path_prob(seq_t *wps, idx_t *i1, idx_t *i2, idx_t l1, idx_t l2, s
     // printf("avg = %f\n", avg);
     
     // D. ri3 <= ri < l1
-    min_ci = p.ri3 + 1 - p.window - p.ldiff;
+    min_ci = p.ri3 + 1 - p.window - p.ldiffr;
     wpsi_start = 2;
     if (p.ri2 == p.ri3) {
         // C is skipped
@@ -1413,7 +1413,7 @@ void dtw_print_wps(seq_t * wps, idx_t l1, idx_t l2, DTWSettings* settings) {
     }
     
     // D. Rows: MAX(overlap_left_ri, overlap_right_ri) < ri <= l1
-    min_ci = p.ri3 + 1 - p.window - p.ldiff;
+    min_ci = p.ri3 + 1 - p.window - p.ldiffr;
     wpsi_start = 2;
     if (p.ri2 == p.ri3) {
         // C is skipped
